@@ -1,7 +1,7 @@
 CHECK = dict(
     level='model_checking', engine='vsched',
     parts=[dict(name='c05', src=['harness/c05_ringbuf.c'], workers=64,
-                objs=[('@VERIF@/harness/c05_scn.c', ['-fsanitize=thread'])],
+                objs=[('@VERIF@/harness/c05_scn.c', ['-fsanitize=thread', '-Dmemset=vs_memset', '-Dmemcpy=vs_memcpy', '-Dmemmove=vs_memmove'])],
                 deadline=dict(quick=400, thorough=3000)),
            # sequential family (harness/c05_seq.c): cheap, so it runs on every build variant and under AddressSanitizer
            dict(name='c05seq', src=['harness/c05_seq.c'], lib=['ringbuf.c'], workers=16, deadline=dict(quick=300, thorough=1800)),
